@@ -213,6 +213,41 @@ def oracle_rejects(ck, rng):
         except Exception as e:  # noqa
             ck.violation(what=f"{name}: raised {type(e).__name__} instead of {exc[0].__name__}: {e}", inp={"probe": name},
                          key={"site": "rejects", "probe": name}, oracle="rejects_inconsistent_input")
+    # mixed presence of features: the result is either rejected or has as many feature rows as molecules (or no feature column)
+    def F(n, t0=1):
+        pos = np.zeros((n, 3)); pos[:, 0] = np.arange(t0, t0 + n)          # z == tag
+        return Molecules(pos, features=pl.DataFrame({"tag": pl.Series("tag", list(range(t0, t0 + n)), dtype=pl.Int64),
+                                                     "s": pl.Series("s", [str(i) for i in range(n)], dtype=pl.Utf8)}))
+    def N(n): return Molecules(np.zeros((n, 3)))
+    mixed = []
+    for a_ in (0, 1, 2, 5):
+        for b_ in (0, 1, 3):
+            mixed += [(f"featureless[{a_}].append(featured[{b_}])", lambda a_=a_, b_=b_: N(a_).append(F(b_)), a_ + b_),
+                      (f"featured[{a_}].append(featureless[{b_}])", lambda a_=a_, b_=b_: F(a_).append(N(b_)), a_ + b_),
+                      (f"featureless[{a_}].concat_with(featured[{b_}])", lambda a_=a_, b_=b_: N(a_).concat_with(F(b_)), a_ + b_),
+                      (f"featured[{a_}].concat_with(featureless[{b_}])", lambda a_=a_, b_=b_: F(a_).concat_with(N(b_)), a_ + b_),
+                      (f"concat([featured[{a_}], featureless[{b_}], featured[1]])", lambda a_=a_, b_=b_: Molecules.concat([F(a_), N(b_), F(1, 50)]), a_ + b_ + 1)]
+    for name, fn, total in mixed:
+        ck.oracle_count("mixed_feature_presence", 1, 1)
+        try:
+            out = fn()
+        except ValueError:
+            continue
+        except Exception as e:  # noqa
+            ck.violation(what=f"{name}: raised {type(e).__name__}: {e}", inp={"probe": name}, key={"site": "mixed-features", "symptom": "raised"}, oracle="mixed_feature_presence")
+            continue
+        fr = out.features
+        npos, nrot = out.pos.shape[0], len(out.rotator)
+        if not (npos == nrot == total and (len(fr.columns) == 0 or fr.height == npos)):
+            ck.violation(what=f"{name}: {npos} positions, {nrot} orientations, {fr.height} feature rows (columns {fr.columns}); expected {total} of each",
+                         inp={"probe": name}, key={"site": "mixed-features", "symptom": "row-count", "op": name.split("(")[0].split(".")[-1]}, oracle="mixed_feature_presence")
+        elif len(fr.columns) and "tag" in fr.columns:
+            # featured rows keep their own tag next to their own position (z == tag by construction of F)
+            tg = fr["tag"].to_list()
+            bad = [i for i, t in enumerate(tg) if t is not None and abs(out.pos[i, 0] - t) > 1e-6]
+            if bad:
+                ck.violation(what=f"{name}: feature rows {bad} no longer sit beside their own positions", inp={"probe": name},
+                             key={"site": "mixed-features", "symptom": "misaligned"}, oracle="mixed_feature_presence")
     # cutby with null feature values
     ck.oracle_count("cutby_nulls", 1, 1)
     m = make([1, 2, 3, 4, 5, 6], [0, 1, 0, 1, 0, 1])
